@@ -21,6 +21,9 @@ impl Vm {
     }
 
     let mode = ExecutionMode::CallingNativeCode(self.fiber.frames().len());
+    #[cfg(feature = "verif")]
+    self.verif_exc_event("nenter", self.fiber.frames().len() as i64);
+
     let result = match self.resolve_call(callable, args.len() as u8) {
       ExecutionSignal::Ok => self.execute(mode),
       ExecutionSignal::OkReturn => ExecutionResult::Ok(self.fiber.pop()),
@@ -28,6 +31,16 @@ impl Vm {
       ExecutionSignal::Exit => ExecutionResult::Exit(self.exit_code),
       _ => self.internal_error("Unexpected signal in run_fun."),
     };
+
+    #[cfg(feature = "verif")]
+    self.verif_exc_exit(
+      self.fiber.frames().len() as i64,
+      match result {
+        ExecutionResult::Ok(_) => "ok",
+        ExecutionResult::RuntimeError => "err",
+        _ => "exit",
+      },
+    );
 
     self.to_call_result(result)
   }}
@@ -52,6 +65,9 @@ impl Vm {
 
     let mode = ExecutionMode::CallingNativeCode(self.fiber.frames().len());
 
+    #[cfg(feature = "verif")]
+    self.verif_exc_event("nenter", self.fiber.frames().len() as i64);
+
     let result = match self.resolve_call(method, args.len() as u8) {
       ExecutionSignal::Ok => self.execute(mode),
       ExecutionSignal::OkReturn => ExecutionResult::Ok(self.fiber.pop()),
@@ -59,6 +75,16 @@ impl Vm {
       ExecutionSignal::Exit => ExecutionResult::Exit(self.exit_code),
       _ => self.internal_error("Unexpected signal in run_method."),
     };
+
+    #[cfg(feature = "verif")]
+    self.verif_exc_exit(
+      self.fiber.frames().len() as i64,
+      match result {
+        ExecutionResult::Ok(_) => "ok",
+        ExecutionResult::RuntimeError => "err",
+        _ => "exit",
+      },
+    );
 
     self.to_call_result(result)
   }}
